@@ -1,6 +1,9 @@
 package generator
 
-import "strings"
+import (
+	"strconv"
+	"strings"
+)
 
 func (g *Generator) ClientFile(cfg Config) GoFile {
 	return GoFile{
@@ -51,9 +54,12 @@ func (g *Generator) SpecFile(fileContent []byte) GoFile {
 
 func encodeRawFileAsString(s string) string {
 	if strings.Contains(string(s), "\n") {
-		s = "`" + strings.ReplaceAll(string(s), "`", "`+\"`\"+`") + "`"
+		s = strings.ReplaceAll(string(s), "`", "`+\"`\"+`")
+		// a raw string literal drops carriage returns: splice them in
+		s = strings.ReplaceAll(s, "\r", "`+\"\\r\"+`")
+		s = "`" + s + "`"
 	} else {
-		s = `"` + strings.ReplaceAll(string(s), `"`, `\"`) + `"`
+		s = strconv.Quote(s)
 	}
 	return s
 }
